@@ -321,159 +321,166 @@ Proof.
 Qed.
 
 (* ------------------------------------------------------------------ the sequence-number provider *)
-Definition pres {A} (m : SM A) : Prop := forall s, s_seq_count (fst (m s)) = s_seq_count s.
-Definition mono {A} (m : SM A) : Prop := forall s, s_seq_count s <= s_seq_count (fst (m s)).
+(* [pres n m]: started with provider value n, m ends with provider value n;
+   [mono n m]: started with a provider value >= n, m ends with a provider value >= n *)
+Definition pres {A} (n : Z) (m : SM A) : Prop :=
+  forall s, s_seq_count s = n -> s_seq_count (fst (m s)) = n.
+Definition mono {A} (n : Z) (m : SM A) : Prop :=
+  forall s, n <= s_seq_count s -> n <= s_seq_count (fst (m s)).
 
-Lemma pres_mono : forall A (m : SM A), pres m -> mono m.
-Proof. intros A m H s. rewrite H. lia. Qed.
+Lemma pres_mono : forall A (m : SM A), (forall k, pres k m) -> forall n, mono n m.
+Proof. intros A m H n s Hs. rewrite (H _ s eq_refl). exact Hs. Qed.
 
-Lemma pres_ret : forall A (a : A), pres (ret a : SM A).
-Proof. intros A a s. reflexivity. Qed.
-Lemma pres_raise : forall A e, pres (raise e : SM A).
-Proof. intros A e s. reflexivity. Qed.
-Lemma pres_get : pres (get : SM src).
-Proof. intros s. reflexivity. Qed.
-Lemma pres_gets : forall A (f : src -> A), pres (gets f).
-Proof. intros A f s. reflexivity. Qed.
-Lemma pres_modify : forall f : src -> src,
-  (forall s, s_seq_count (f s) = s_seq_count s) -> pres (modify f).
-Proof. intros f H s. apply H. Qed.
-Lemma pres_bind : forall A B (m : SM A) (f : A -> SM B),
-  pres m -> (forall a, pres (f a)) -> pres (bind m f).
+Lemma pres_ret : forall n A (a : A), pres n (ret a : SM A).
+Proof. intros n A a s H. exact H. Qed.
+Lemma pres_raise : forall n A e, pres n (raise e : SM A).
+Proof. intros n A e s H. exact H. Qed.
+Lemma pres_gets : forall n A (f : src -> A), pres n (gets f).
+Proof. intros n A f s H. exact H. Qed.
+Lemma pres_modify : forall n (f : src -> src),
+  (forall s, s_seq_count (f s) = s_seq_count s) -> pres n (modify f).
+Proof. intros n f H s Hs. cbn. rewrite H. exact Hs. Qed.
+Lemma pres_put : forall n x, s_seq_count x = n -> pres n (put x).
+Proof. intros n x H s _. exact H. Qed.
+Lemma pres_bind : forall n A B (m : SM A) (f : A -> SM B),
+  pres n m -> (forall a, pres n (f a)) -> pres n (bind m f).
 Proof.
-  intros A B m f Hm Hf s. unfold bind. specialize (Hm s).
-  destruct (m s) as [s' [a|e]]; cbn in *; [rewrite <- Hm; apply Hf | exact Hm].
+  intros n A B m f Hm Hf s Hs. unfold bind. specialize (Hm s Hs).
+  destruct (m s) as [s' [a|e]]; cbn in *; [apply Hf; exact Hm | exact Hm].
 Qed.
-Lemma pres_when : forall b (m : SM unit), pres m -> pres (when b m).
-Proof. intros [] m H; [exact H | apply pres_ret]. Qed.
-Lemma pres_get_put : forall B (g : src -> src) (k : src -> SM B),
-  (forall s, s_seq_count (g s) = s_seq_count s) -> (forall s0, pres (k s0)) ->
-  pres (bind get (fun s => bind (put (g s)) (fun _ => k s))).
-Proof. intros B g k Hg Hk s. unfold bind, get, put. cbn. rewrite (Hk s (g s)). apply Hg. Qed.
+Lemma pres_get_bind : forall n B (f : src -> SM B),
+  (forall s0, s_seq_count s0 = n -> pres n (f s0)) -> pres n (bind get f).
+Proof. intros n B f H s Hs. unfold bind, get. apply (H s Hs s Hs). Qed.
+Lemma pres_when : forall n b (m : SM unit), pres n m -> pres n (when b m).
+Proof. intros n [] m H; [exact H | apply pres_ret]. Qed.
 
-Lemma mono_bind : forall A B (m : SM A) (f : A -> SM B),
-  mono m -> (forall a, mono (f a)) -> mono (bind m f).
+Lemma mono_put : forall n x, n <= s_seq_count x -> mono n (put x).
+Proof. intros n x H s _. exact H. Qed.
+Lemma mono_bind : forall n A B (m : SM A) (f : A -> SM B),
+  mono n m -> (forall a, mono n (f a)) -> mono n (bind m f).
 Proof.
-  intros A B m f Hm Hf s. unfold bind. specialize (Hm s).
-  destruct (m s) as [s' [a|e]]; cbn in *; [specialize (Hf a s'); lia | exact Hm].
+  intros n A B m f Hm Hf s Hs. unfold bind. specialize (Hm s Hs).
+  destruct (m s) as [s' [a|e]]; cbn in *; [apply Hf; exact Hm | exact Hm].
 Qed.
-Lemma mono_when : forall b (m : SM unit), mono m -> mono (when b m).
-Proof. intros [] m H; [exact H | apply pres_mono, pres_ret]. Qed.
-Lemma mono_get_put : forall B (g : src -> src) (k : src -> SM B),
-  (forall s, s_seq_count s <= s_seq_count (g s)) -> (forall s0, mono (k s0)) ->
-  mono (bind get (fun s => bind (put (g s)) (fun _ => k s))).
-Proof. intros B g k Hg Hk s. unfold bind, get, put. cbn. specialize (Hk s (g s)). specialize (Hg s). lia. Qed.
+Lemma mono_get_bind : forall n B (f : src -> SM B),
+  (forall s0, n <= s_seq_count s0 -> mono n (f s0)) -> mono n (bind get f).
+Proof. intros n B f H s Hs. unfold bind, get. apply (H s Hs s Hs). Qed.
+Lemma mono_when : forall n b (m : SM unit), mono n m -> mono n (when b m).
+Proof. intros n [] m H; [exact H | intros s Hs; exact Hs]. Qed.
 
 Create HintDb pres.
 
 Ltac pres_step :=
   match goal with
-  | |- pres (ret _) => apply pres_ret
-  | |- pres (raise _) => apply pres_raise
-  | |- pres get => apply pres_get
-  | |- pres (gets _) => apply pres_gets
-  | |- pres (modify _) => apply pres_modify; intros []; reflexivity
-  | |- pres (when _ _) => apply pres_when
-  | |- pres (bind get _) => apply pres_get_put; [intros []; reflexivity | intro]
-  | |- pres (bind _ _) => apply pres_bind; [| intro]
-  | |- pres (match ?x with _ => _ end) => destruct x
-  | |- pres _ => solve [auto with pres]
+  | |- pres _ (ret _) => apply pres_ret
+  | |- pres _ (raise _) => apply pres_raise
+  | |- pres _ (gets _) => apply pres_gets
+  | |- pres _ (modify _) => apply pres_modify; intros []; reflexivity
+  | |- pres _ (put _) =>
+      apply pres_put;
+      repeat match goal with H : s_seq_count ?x = _ |- _ => is_var x; destruct x; cbn in H end;
+      cbn; assumption
+  | |- pres _ (when _ _) => apply pres_when
+  | |- pres _ (bind get _) => apply pres_get_bind; intros ? ?
+  | |- pres _ (bind _ _) => apply pres_bind; [| intro]
+  | |- pres _ (match ?x with _ => _ end) => destruct x
+  | |- pres _ _ => solve [auto with pres]
   end.
 Ltac pres_all := intros; repeat pres_step.
 
-Lemma pres_gq : forall A (f : sparams -> A), pres (gq f).
+Lemma pres_gq : forall n A (f : sparams -> A), pres n (gq f).
 Proof. unfold gq; pres_all. Qed.
-Lemma pres_setq : forall f, pres (setq f).
+Lemma pres_setq : forall n f, pres n (setq f).
 Proof. unfold setq; pres_all. Qed.
-Lemma pres_sset_step : forall v, pres (sset_step v).
+Lemma pres_sset_step : forall n v, pres n (sset_step v).
 Proof. unfold sset_step; pres_all. Qed.
-Lemma pres_semit : forall e, pres (semit e).
+Lemma pres_semit : forall n e, pres n (semit e).
 Proof. unfold semit; pres_all. Qed.
-Lemma pres_snow : pres snow.
+Lemma pres_snow : forall n, pres n snow.
 Proof. unfold snow; pres_all. Qed.
-Lemma pres_sadd_packet : forall p, pres (sadd_packet p).
+Lemma pres_sadd_packet : forall n p, pres n (sadd_packet p).
 Proof. unfold sadd_packet; pres_all. Qed.
-Lemma pres_sreset_internal : forall c, pres (sreset_internal c).
+Lemma pres_sreset_internal : forall n c, pres n (sreset_internal c).
 Proof. unfold sreset_internal; pres_all. Qed.
 #[export] Hint Resolve pres_gq pres_setq pres_sset_step pres_semit pres_snow pres_sadd_packet
   pres_sreset_internal : pres.
 
-Lemma pres_stid_or_assert : pres stid_or_assert.
+Lemma pres_stid_or_assert : forall n, pres n stid_or_assert.
 Proof. unfold stid_or_assert; pres_all. Qed.
-Lemma pres_srcfg_or_assert : pres srcfg_or_assert.
+Lemma pres_srcfg_or_assert : forall n, pres n srcfg_or_assert.
 Proof. unfold srcfg_or_assert; pres_all. Qed.
-Lemma pres_put_or_assert : pres put_or_assert.
+Lemma pres_put_or_assert : forall n, pres n put_or_assert.
 Proof. unfold put_or_assert; pres_all. Qed.
-Lemma pres_stmode : pres stmode.
+Lemma pres_stmode : forall n, pres n stmode.
 Proof. unfold stmode; pres_all. Qed.
 #[export] Hint Resolve pres_stid_or_assert pres_srcfg_or_assert pres_put_or_assert pres_stmode : pres.
-Lemma pres_smode_is : forall m, pres (smode_is m).
+Lemma pres_smode_is : forall n m, pres n (smode_is m).
 Proof. unfold smode_is; pres_all. Qed.
-Lemma pres_sstep_is : forall v, pres (sstep_is v).
+Lemma pres_sstep_is : forall n v, pres n (sstep_is v).
 Proof. unfold sstep_is; pres_all. Qed.
 #[export] Hint Resolve pres_smode_is pres_sstep_is : pres.
 
-Lemma pres_src_names : pres src_names.
+Lemma pres_src_names : forall n, pres n src_names.
 Proof. unfold src_names; pres_all. Qed.
-Lemma pres_checksum_calculation : forall sz, pres (checksum_calculation sz).
+Lemma pres_checksum_calculation : forall n sz, pres n (checksum_calculation sz).
 Proof. unfold checksum_calculation; pres_all. Qed.
 #[export] Hint Resolve pres_src_names pres_checksum_calculation : pres.
-Lemma pres_prepare_file_data_pdu : forall o l, pres (prepare_file_data_pdu o l).
+Lemma pres_prepare_file_data_pdu : forall n o l, pres n (prepare_file_data_pdu o l).
 Proof. unfold prepare_file_data_pdu; pres_all. Qed.
-Lemma pres_prepare_metadata_pdu : pres prepare_metadata_pdu.
+Lemma pres_prepare_metadata_pdu : forall n, pres n prepare_metadata_pdu.
 Proof. unfold prepare_metadata_pdu; pres_all. Qed.
-Lemma pres_prepare_eof_pdu : forall ck, pres (prepare_eof_pdu ck).
+Lemma pres_prepare_eof_pdu : forall n ck, pres n (prepare_eof_pdu ck).
 Proof. unfold prepare_eof_pdu; pres_all. Qed.
-Lemma pres_start_positive_ack_procedure_s : pres start_positive_ack_procedure_s.
+Lemma pres_start_positive_ack_procedure_s : forall n, pres n start_positive_ack_procedure_s.
 Proof. unfold start_positive_ack_procedure_s; pres_all. Qed.
 #[export] Hint Resolve pres_prepare_file_data_pdu pres_prepare_metadata_pdu pres_prepare_eof_pdu
   pres_start_positive_ack_procedure_s : pres.
-Lemma pres_handle_eof_sent : forall c, pres (handle_eof_sent c).
+Lemma pres_handle_eof_sent : forall n c, pres n (handle_eof_sent c).
 Proof. unfold handle_eof_sent; pres_all. Qed.
 #[export] Hint Resolve pres_handle_eof_sent : pres.
-Lemma pres_notice_of_cancellation_s : forall c, pres (notice_of_cancellation_s c).
+Lemma pres_notice_of_cancellation_s : forall n c, pres n (notice_of_cancellation_s c).
 Proof. unfold notice_of_cancellation_s; pres_all. Qed.
 #[export] Hint Resolve pres_notice_of_cancellation_s : pres.
-Lemma pres_declare_fault_s : forall c, pres (declare_fault_s c).
+Lemma pres_declare_fault_s : forall n c, pres n (declare_fault_s c).
 Proof. unfold declare_fault_s; pres_all. Qed.
 #[export] Hint Resolve pres_declare_fault_s : pres.
 
-Lemma pres_retransmit_chunks : forall fuel o m sg, pres (retransmit_chunks fuel o m sg).
+Lemma pres_retransmit_chunks : forall n fuel o m sg, pres n (retransmit_chunks fuel o m sg).
 Proof.
-  induction fuel; intros; cbn [retransmit_chunks]; pres_all.
+  intros n. induction fuel; intros; cbn [retransmit_chunks]; pres_all.
 Qed.
 #[export] Hint Resolve pres_retransmit_chunks : pres.
-Lemma pres_handle_segment_req : forall rq, pres (handle_segment_req rq).
+Lemma pres_handle_segment_req : forall n rq, pres n (handle_segment_req rq).
 Proof. unfold handle_segment_req; pres_all. Qed.
 #[export] Hint Resolve pres_handle_segment_req : pres.
-Lemma pres_fold_segment_reqs : forall reqs (m : SM unit), pres m ->
-  pres (fold_left (fun m rq => bind m (fun _ => handle_segment_req rq)) reqs m).
+Lemma pres_fold_segment_reqs : forall n reqs (m : SM unit), pres n m ->
+  pres n (fold_left (fun m rq => bind m (fun _ => handle_segment_req rq)) reqs m).
 Proof.
-  induction reqs; intros m H; cbn [fold_left]; [exact H|]. apply IHreqs. pres_all.
+  intros n. induction reqs; intros m H; cbn [fold_left]; [exact H|]. apply IHreqs. pres_all.
 Qed.
-Lemma pres_handle_retransmission : forall pkt, pres (handle_retransmission pkt).
+Lemma pres_handle_retransmission : forall n pkt, pres n (handle_retransmission pkt).
 Proof.
   unfold handle_retransmission; pres_all. apply pres_fold_segment_reqs. pres_all.
 Qed.
 #[export] Hint Resolve pres_handle_retransmission : pres.
 
-Lemma pres_prepare_progressing_file_data_pdu : pres prepare_progressing_file_data_pdu.
+Lemma pres_prepare_progressing_file_data_pdu : forall n, pres n prepare_progressing_file_data_pdu.
 Proof. unfold prepare_progressing_file_data_pdu; pres_all. Qed.
 #[export] Hint Resolve pres_prepare_progressing_file_data_pdu : pres.
-Lemma pres_sending_file_data_fsm : forall pkt, pres (sending_file_data_fsm pkt).
+Lemma pres_sending_file_data_fsm : forall n pkt, pres n (sending_file_data_fsm pkt).
 Proof. unfold sending_file_data_fsm; pres_all. Qed.
-Lemma pres_handle_positive_ack_procedures_s : pres handle_positive_ack_procedures_s.
+Lemma pres_handle_positive_ack_procedures_s : forall n, pres n handle_positive_ack_procedures_s.
 Proof. unfold handle_positive_ack_procedures_s; pres_all. Qed.
 #[export] Hint Resolve pres_sending_file_data_fsm pres_handle_positive_ack_procedures_s : pres.
-Lemma pres_handle_waiting_for_ack : forall pkt, pres (handle_waiting_for_ack pkt).
+Lemma pres_handle_waiting_for_ack : forall n pkt, pres n (handle_waiting_for_ack pkt).
 Proof. unfold handle_waiting_for_ack; pres_all. Qed.
-Lemma pres_handle_wait_for_finish : forall pkt, pres (handle_wait_for_finish pkt).
+Lemma pres_handle_wait_for_finish : forall n pkt, pres n (handle_wait_for_finish pkt).
 Proof. unfold handle_wait_for_finish; pres_all. Qed.
-Lemma pres_notice_of_completion_s : pres notice_of_completion_s.
+Lemma pres_notice_of_completion_s : forall n, pres n notice_of_completion_s.
 Proof. unfold notice_of_completion_s; pres_all. Qed.
-Lemma pres_fsm_advancement_s : pres fsm_advancement_s.
+Lemma pres_fsm_advancement_s : forall n, pres n fsm_advancement_s.
 Proof. unfold fsm_advancement_s; pres_all. Qed.
-Lemma pres_check_inserted_packet_s : forall p, pres (check_inserted_packet_s p).
+Lemma pres_check_inserted_packet_s : forall n p, pres n (check_inserted_packet_s p).
 Proof. unfold check_inserted_packet_s; pres_all. Qed.
 #[export] Hint Resolve pres_handle_waiting_for_ack pres_handle_wait_for_finish pres_notice_of_completion_s
   pres_fsm_advancement_s pres_check_inserted_packet_s : pres.
@@ -481,28 +488,39 @@ Proof. unfold check_inserted_packet_s; pres_all. Qed.
 (* the only function that touches the provider: it takes the next value *)
 Ltac mono_step :=
   first
-  [ apply pres_mono; solve [repeat pres_step]
-  | apply mono_when
-  | apply mono_get_put; [intros []; cbn; lia | intro]
-  | apply mono_bind; [| intro]
-  | match goal with |- mono (match ?x with _ => _ end) => destruct x end
-  | solve [auto with pres] ].
+  [ apply pres_mono; intro; solve [repeat pres_step]
+  | match goal with
+    | |- mono _ (when _ _) => apply mono_when
+    | |- mono _ (put _) =>
+        apply mono_put;
+        repeat match goal with H : _ <= s_seq_count ?x |- _ => is_var x; destruct x; cbn in H end;
+        cbn; lia
+    | |- mono _ (bind get _) => apply mono_get_bind; intros ? ?
+    | |- mono _ (bind _ _) => apply mono_bind; [| intro]
+    | |- mono _ (match ?x with _ => _ end) => destruct x
+    end ].
 
-Lemma mono_transaction_start : mono transaction_start.
-Proof. unfold transaction_start. repeat mono_step. Qed.
-#[export] Hint Resolve mono_transaction_start : pres.
-Lemma mono_fsm_non_idle : forall pkt, mono (fsm_non_idle pkt).
-Proof. intros pkt. unfold fsm_non_idle. repeat mono_step. Qed.
-#[export] Hint Resolve mono_fsm_non_idle : pres.
+Lemma mono_transaction_start : forall n, mono n transaction_start.
+Proof. intros n. unfold transaction_start. cbv zeta. repeat mono_step. Qed.
+Lemma mono_fsm_non_idle : forall n pkt, mono n (fsm_non_idle pkt).
+Proof.
+  intros n pkt. unfold fsm_non_idle.
+  repeat first [ match goal with |- mono _ transaction_start => apply mono_transaction_start end | mono_step ].
+Qed.
+Lemma mono_state_machine_s : forall n pkt, mono n (state_machine_s pkt).
+Proof.
+  intros n pkt. unfold state_machine_s.
+  repeat first [ match goal with |- mono _ (fsm_non_idle _) => apply mono_fsm_non_idle end | mono_step ].
+Qed.
 
 Lemma seq_monotone : forall pkt s, s_seq_count s <= s_seq_count (fst (state_machine_s pkt s)).
-Proof. intros pkt. change (mono (state_machine_s pkt)). unfold state_machine_s. repeat mono_step. Qed.
+Proof. intros pkt s. apply (mono_state_machine_s (s_seq_count s) pkt s). lia. Qed.
 
-Lemma pres_put_request : forall p, pres (put_request p).
+Lemma pres_put_request : forall n p, pres n (put_request p).
 Proof. unfold put_request; pres_all. Qed.
-Lemma pres_cancel_request_s : forall a b, pres (cancel_request_s a b).
+Lemma pres_cancel_request_s : forall n a b, pres n (cancel_request_s a b).
 Proof. unfold cancel_request_s; pres_all. Qed.
-Lemma pres_get_next_packet_s : pres get_next_packet_s.
+Lemma pres_get_next_packet_s : forall n, pres n get_next_packet_s.
 Proof. unfold get_next_packet_s; pres_all. Qed.
 
 Lemma seq_unchanged_elsewhere : forall s p a b,
@@ -511,9 +529,9 @@ Lemma seq_unchanged_elsewhere : forall s p a b,
   s_seq_count (fst (get_next_packet_s s)) = s_seq_count s /\
   s_seq_count (fst (reset_s s)) = s_seq_count s.
 Proof.
-  intros s p a b. repeat split.
-  - apply pres_put_request.
-  - apply pres_cancel_request_s.
-  - apply pres_get_next_packet_s.
-  - apply pres_sreset_internal.
+  intros s p a b. split; [|split; [|split]].
+  - apply pres_put_request; reflexivity.
+  - apply pres_cancel_request_s; reflexivity.
+  - apply pres_get_next_packet_s; reflexivity.
+  - apply (pres_sreset_internal (s_seq_count s) true s); reflexivity.
 Qed.
